@@ -191,7 +191,7 @@ theorem feedLines_eq (env : Env) (hne : NoEscape env) (ls : List Bytes) (w : Wor
     unfold feedLines
     cases h : parseMsg env.timeOk (decode l) with
     | empty => simp [ih, msgsOf, reactsOf, lineMsg, h]
-    | malformed => simp [ih, msgsOf, reactsOf, lineMsg, h]
+    | malformed => simp [ih, msgsOf, reactsOf, lineMsg, h, hne.2.2]
     | crash e => exact absurd h (parseMsg_no_crash _ _ _)
     | msg m =>
       simp only [hne.1 w.fed m, ih, feedMsg]
@@ -269,7 +269,7 @@ theorem inv_sendPlain (w : World) (h : Inv env w) : Inv env (sendPlain w) := by
 /-- when nothing escapes `takeMsg`, `_sendIfMsgs` is its plain body -/
 theorem sendIfMsgs_eq (w : World) : sendIfMsgs env w = sendPlain w := by
   unfold sendIfMsgs
-  rw [hne.2 w.queue]
+  rw [hne.2.1 w.queue]
   split <;> rfl
 
 theorem inv_sendIfMsgs (w : World) (h : Inv env w) : Inv env (sendIfMsgs env w) := by
